@@ -560,6 +560,49 @@ def derive_after_run(acc, tier):
                             shutil.rmtree(tmp, ignore_errors=True)
 
 
+def equal_but_different_args(acc):
+    """'never served to a node with ... different arguments': arguments that compare (and hash) equal but are different values -
+    1 / True / 1.0, 0 / False / 0.0, tuples of them, -0.0 / 0.0 - run one after the other against one cache, every order of each
+    triple; each run must equal the uncached run, and the SAME value again must be served from the retained entry."""
+    import tempfile
+
+    from hypergraph.cache import DiskCache, InMemoryCache
+
+    groups = [[1, True, 1.0], [0, False, 0.0], [(1, 2), (True, 2), (1.0, 2.0)], [0.0, -0.0], ["1", 1]]
+    for runner in ("sync", "async"):
+        for bk in ("mem", "disk"):
+            for gi, grp in enumerate(groups):
+                for perm in itertools.permutations(range(len(grp))):
+                    h = H()
+                    prog = T.set_async(T.prog([T.fn("desc", ["x"], ["d"], cache=True, behav={"py": "(type(x).__name__, repr(x))"}), T.fn("use", ["d"], ["u"], behav={"py": "('use', d)"})]), runner == "async")
+                    g = build(prog, h)
+                    tmp = tempfile.mkdtemp(prefix="c09e_", dir="/dev/shm" if os.path.isdir("/dev/shm") else None)
+                    cache = InMemoryCache() if bk == "mem" else DiskCache(tmp)
+                    w = {"equal_but_different_args": True}
+                    try:
+                        seq = [grp[i] for i in perm] + [grp[perm[0]]]
+                        for k, v in enumerate(seq):
+                            n0 = sum(1 for c in h.calls if c.nid == "desc")
+                            x = execute(prog, {"x": v}, runner=runner, h=h, graph=g, cache=cache, canon_inputs=False)
+                            acc.evaluations += 1
+                            exp = {"d": (type(v).__name__, repr(v)), "u": ("use", (type(v).__name__, repr(v)))}
+                            got = None if x.result is None else dict(x.result.values)
+                            if x.exc is not None or got != exp:
+                                acc.violation({"symptom": "entry-served-for-different-arguments", "backend": bk}, w, f"cached node called with x={v!r} after {[repr(s_) for s_ in seq[:k]]} ({runner}/{bk}): got {jsonable(got) if x.exc is None else repr(x.exc)}, uncached gives {jsonable(exp)}")
+                                break
+                            ran = sum(1 for c in h.calls if c.nid == "desc") - n0
+                            if k == len(seq) - 1 and ran != 0:
+                                acc.violation({"symptom": "retained-entry-not-served", "backend": bk, "kind": "equal-args"}, w, f"x={v!r} again after {[repr(s_) for s_ in seq[:k]]} ({runner}/{bk}): the function ran again although its entry was retained")
+                        acc.key(("equal-args", runner, bk, gi, perm))
+                    finally:
+                        if bk == "disk":
+                            try:
+                                cache._cache.close()
+                            except Exception:  # noqa: BLE001
+                                pass
+                        shutil.rmtree(tmp, ignore_errors=True)
+
+
 def shards(tier, seed):
     out = []
     for pi, (name, progs, variants) in enumerate(programs()):
@@ -567,6 +610,7 @@ def shards(tier, seed):
         for si in range(len(subs)):
             out.append((tier, seed, pi, si))
     out.append((tier, seed, "derive-after-run", 0))
+    out.append((tier, seed, "equal-args", 0))
     return out
 
 
@@ -575,6 +619,9 @@ def run_shard(shard):
     acc = Acc()
     if pi == "derive-after-run":
         derive_after_run(acc, tier)
+        return acc
+    if pi == "equal-args":
+        equal_but_different_args(acc)
         return acc
     name, progs, variants = list(programs())[pi]
     sub = list(cacheable_subsets(progs, tier))[si]
@@ -618,6 +665,9 @@ def coverage_extra(acc, tier, seed):
 
 def replay(rep):
     acc = Acc()
+    if rep.get("equal_but_different_args"):
+        equal_but_different_args(acc)
+        return [v["message"] for v in acc.violations.values()]
     if rep.get("derive_after_run"):
         derive_after_run(acc, "quick")
         return [v["message"] for v in acc.violations.values()]
